@@ -476,22 +476,45 @@ func dumpFor(d *wl.Dump, key string) *wl.BucketDump {
 func (cr *crashRun) kf03aPoint(k int) bool { return kf03aPointIn(cr.Events, k) }
 
 func kf03aPointIn(events []crashfs.Event, k int) bool {
+	return kf03aFile(events, k) != ""
+}
+
+// kf03aFile returns the variable-length year file whose interval is in KF-03a's window at crash
+// point k ("" if none): the LAST event on that file before k is a data-area write that rewrites
+// an interval in place (an earlier write to the file started at the same offset), and the NEXT
+// event on that file is the interval's 24-byte index write. Events of other files (bucket
+// creation by another writer goroutine, acknowledgement markers) may lie in between.
+func kf03aFile(events []crashfs.Event, k int) string {
 	if k <= 0 || k >= len(events) {
-		return false
+		return ""
 	}
-	a, b := &events[k-1], &events[k]
-	if a.Kind != crashfs.EvWrite || b.Kind != crashfs.EvWrite || a.Path != b.Path || !strings.HasSuffix(a.Path, ".bin") {
-		return false
-	}
-	if len(b.Data) != 24 || a.Off < 37024 {
-		return false
-	}
-	// in place: some earlier write to the same file started at the same offset
-	for i := 0; i < k-1; i++ {
-		e := &events[i]
-		if e.Kind == crashfs.EvWrite && e.Path == a.Path && e.Off == a.Off {
-			return true
+	last := map[string]int{}
+	for i := 0; i < k; i++ {
+		if e := &events[i]; e.Kind != crashfs.EvMark && strings.HasSuffix(e.Path, ".bin") {
+			last[e.Path] = i
 		}
 	}
-	return false
+	for path, ai := range last {
+		a := &events[ai]
+		if a.Kind != crashfs.EvWrite || a.Off < 37024 || len(a.Data) == 24 {
+			continue
+		}
+		var b *crashfs.Event
+		for i := k; i < len(events); i++ {
+			if events[i].Path == path && events[i].Kind != crashfs.EvMark {
+				b = &events[i]
+				break
+			}
+		}
+		if b == nil || b.Kind != crashfs.EvWrite || len(b.Data) != 24 {
+			continue
+		}
+		for i := 0; i < ai; i++ {
+			e := &events[i]
+			if e.Kind == crashfs.EvWrite && e.Path == path && e.Off == a.Off {
+				return path
+			}
+		}
+	}
+	return ""
 }
